@@ -60,7 +60,7 @@ def run_controls(prop, repo='/repo'):
                 continue
             mod = core.load_rules(prop)
             from .db import Program
-            cx = core.run_rules(mod, Program(prog_dir), 'dev', only_rule=meta['rule'])
+            cx = core.run_rules(mod, Program(prog_dir, profile="dev"), 'dev', only_rule=meta['rule'])
             fails = [r for r in cx.records if r['verdict'] == 'fail']
             hit = [r for r in fails if not meta['expect'] or meta['expect'] in (r['function'] + ' ' + r['instance'] + ' ' + r['detail'])]
             if hit:
